@@ -41,8 +41,15 @@ func vfStubNewLimiter(r rate.Limit, b int) *rate.Limiter {
 	return l
 }
 
+var vfWaitBounded bool
+
 func vfStubWaitN(l *rate.Limiter, ctx context.Context, n int) error {
 	vfCharges = append(vfCharges, vfCharge{l, n})
+	if _, bounded := ctx.Deadline(); bounded {
+		// WaitN gives up at once, consuming nothing, when the wait would outlast the context: a bounded wait means
+		// bytes that were already moved go unaccounted
+		vfWaitBounded = true
+	}
 	return nil
 }
 
@@ -114,7 +121,7 @@ func (l *vfRLListener) Addr() net.Addr { return nil }
 
 //vf:harness property=C20 nopanic modelonly reach=limit-read-only,limit-write-only,limit-both,limit-none
 func vfH_C20_glue() {
-	vfLimiters, vfCharges = nil, nil
+	vfLimiters, vfCharges, vfWaitBounded = nil, nil, false
 	R, W := vfrt.Int64("read-limit"), vfrt.Int64("write-limit")
 	const big = int64(1) << 53
 	vfrt.Assume(R > -big)
@@ -198,6 +205,7 @@ func vfH_C20_glue() {
 		vfrt.Assert(li.burst >= defaultMaxBurstSize, "glue/burst-at-least-the-biggest-request")
 		return charges[0].l
 	}
+	vfrt.Assert(!vfWaitBounded, "glue/the-limiter-is-waited-for-without-a-time-bound")
 	lt1 := check(tx1, wn, R, "client-bound")
 	lt2 := check(tx2, 2, R, "client-bound")
 	lr1 := check(rx1, n, W, "client-sent")
